@@ -6,6 +6,7 @@ import (
 	"flag"
 	"fmt"
 	"os"
+	"runtime/pprof"
 
 	"verif/harness/internal/core"
 	_ "verif/harness/props"
@@ -35,6 +36,12 @@ func main() {
 		os.Exit(3)
 	}
 	if *worker >= 0 {
+		if pf := os.Getenv("VERIF_CPUPROFILE"); pf != "" { // diagnostic: CPU profile of worker 0
+			if f, err := os.Create(fmt.Sprintf("%s.%d", pf, *worker)); err == nil {
+				_ = pprof.StartCPUProfile(f)
+				defer pprof.StopCPUProfile()
+			}
+		}
 		core.RunWorker(p, core.Tier(*tier), *seed, *worker, *nworkers, *out, *only)
 		return
 	}
